@@ -168,8 +168,10 @@ def apply_sections(body, sections, qual, g):
         elif kind == "tail":
             inserts.append((len(body) - 1, "\n" + text + "\n"))
         elif kind == "at":
-            pat, nth, where = args
+            pat, nth, where, optional = args
             ms = rw.find_matches(body, pat)
+            if len(ms) < nth and optional:
+                continue
             if len(ms) < nth:
                 raise RuleMismatch("%s: anchor `%s` #%d not found (%d matches)" % (qual, pat, nth, len(ms)))
             s, e, _ = ms[nth - 1]
@@ -245,7 +247,8 @@ def parse_fn_block(lines):
                 cur = ["tail", None, ""]
             elif words[0] == "loopend":
                 cur = ["loopend", int(words[1]), ""]
-            elif words[0] == "at":
+            elif words[0] in ("at", "at?"):
+                # `//@at? "anchor" …`: a proof hint that only helps a clause along — without the anchor the clause itself decides
                 nth = 1
                 where = "before"
                 for w in words[2:]:
@@ -253,7 +256,7 @@ def parse_fn_block(lines):
                         nth = int(w)
                     else:
                         where = w
-                cur = ["at", (words[1], nth, where), ""]
+                cur = ["at", (words[1], nth, where, words[0] == "at?"), ""]
             elif words[0] == "attr":
                 sections.append(("attr", None, d[len("attr"):].strip()))
             else:
